@@ -263,7 +263,7 @@ def _run_case(draw, max_lines=6):
                     v = draw(S.md5_value(salt_len=n))
                 elif which == 0 and attempt == 0 and b["cls"] in ("hex", "type7", "text") and draw(st.integers(0, 6)) == 0 and any(x["cls"] == b["cls"] and x["kw"] == b["kw"] for x in blocks[:bi]):
                     j = draw(st.sampled_from([j for j, x in enumerate(blocks[:bi]) if x["cls"] == b["cls"] and x["kw"] == b["kw"]]))
-                    v = values[0][j].swapcase()  # differs from another secret only in letter case
+                    v = values[0][j].strip("\\").swapcase()  # differs from another secret only in letter case
                 else:
                     _, v = draw(S.secret_for(form, b["cls"]))
                 ident = identity(b["cls"], v)
@@ -271,6 +271,12 @@ def _run_case(draw, max_lines=6):
                     break
             else:
                 ident = ident + "#%d" % bi
+            if which == 0 and b["cls"] == "text" and not b["kw"] and not b["rej"] and draw(st.integers(0, 5)) == 0:
+                users = [l for l in lines if bi in l["blocks"]]
+                if all(l["enc"] == ["", ""] and '"' not in S.FORM_BY_ID[l["form"]].heads[l["head"] % len(S.FORM_BY_ID[l["form"]].heads)] for l in users):
+                    v2 = ("\\" + v) if draw(st.booleans()) else (v + "\\")
+                    if v2 not in ids:
+                        v, ident = v2, v2  # a lone backslash is an ordinary character of the secret
             ids.add(ident)
             values[which].append(v)
     return {"salt": draw(st.sampled_from(["Tsalt", "", "s", "_x", "QzF"])), "lines": lines, "classes": [b["cls"] for b in blocks], "values": values}
